@@ -23,7 +23,7 @@ CONSTANTS Deep,     \* TRUE: more histories
 \* (the quoted word makes the smart-quote option observable; it never gets an auto-correct entry of its own)
 Quoted == "\"as'"
 AllWords == {"as", "onno", "academy", Quoted}
-Words == IF Twice THEN {"as", "academy", Quoted} ELSE AllWords
+Words == IF Twice THEN {"as", "academy", Quoted} ELSE IF Deep THEN AllWords ELSE {"as", "onno", Quoted}
 EditWords == Words \ {Quoted}
 
 PC(sug, eng, smart, ansi) ==
